@@ -178,6 +178,36 @@ def sm_foreign(world):
                 w2, status = P.drain(w)
                 yield from _sad_check(w2, name, lab + ':drained', 'after an authentic DELETE of CHILD_SA %s on its %s IKE_SA and '
                                       'a drain' % (spi.hex(), sa.state.name))
+        # an authentic IKE_SA rekey request that cannot be completed for a reason the code does not expect (a KE value that
+        # is no public value of the group, no nonce): the IKE_SA may go, but then with everything it installed
+        import message as _m
+        for idx, sa in enumerate(ep.controller.ike_sas):
+            if sa.peer_crypto is None or sa.state != State.ESTABLISHED or not sa.child_sas or sa.chosen_proposal is None:
+                continue
+            keys = F.Keys(sa.peer_crypto)
+            flags = 0x08 if not sa.is_initiator else 0
+            try:
+                sa_body = bytes(_m.PayloadSA([_m.Proposal(1, _m.Proposal.Protocol.IKE, b'\x77' * 8,
+                                                          list(sa.chosen_proposal.transforms))]).to_bytes())
+                group = int(sa.chosen_proposal.get_transform(_m.Transform.Type.DH).id)
+            except Exception:   # noqa
+                continue
+            for lab, pl in (('ke-garbage', [(F.SA, sa_body), (F.NONCE, b'n' * 32), (F.KE, bytes([0, group, 0, 0]) + b'\xff' * 64)]),
+                            ('no-nonce', [(F.SA, sa_body), (F.KE, bytes([0, group, 0, 0]) + b'\x01' * 64)]),
+                            ('no-ke', [(F.SA, sa_body), (F.NONCE, b'n' * 32)])):
+                data = F.protect(bytes(sa.spi_i), bytes(sa.spi_r), 36, flags, sa.peer_msg_id, pl, keys)
+                w = world.fork()
+                w.step(('inject', name, data, str(sa.peer_addr)))
+                w.history.append(('inject', name, data, str(sa.peer_addr)))
+                C.COVER['foreign:ike-rekey-%s' % lab] += 1
+                if not w.endpoints[name].alive:
+                    continue        # C17's subject
+                yield from _sad_check(w, name, 'foreign-ike-rekey-%s' % lab, 'after an authentic IKE_SA rekey request (%s)' % lab)
+                e2 = w.endpoints[name]
+                if not [c for x in e2.controller.ike_sas for c in x.child_sas] and e2.kernel.sad:
+                    yield ('M-sad', 'foreign-ike-rekey-%s:left=%d' % (lab, len(e2.kernel.sad)),
+                           '%s holds no CHILD_SA any more after an authentic IKE_SA rekey request (%s) but %d SAs are still in '
+                           'its kernel' % (name, lab, len(e2.kernel.sad)), list(w.history))
         for d in list(world.net):
             if world.ep_by_addr(d.dst) is not ep or d.desc[0] in ('raw', 'enc'):
                 continue
